@@ -125,6 +125,9 @@ func (b *Buffer) GetAttr(name string) (Object, bool) {
 				if err != nil {
 					return err
 				}
+				if amount < 0 {
+					return Errorf("value error: buffer.read: size %d out of range", amount)
+				}
 			}
 			p := make([]byte, amount)
 			n, err := b.Read(p)
